@@ -194,6 +194,11 @@ func (g *apiGen) id(db, coll string, pctExisting int) interface{} {
 	if len(docs) > 0 && r.P(pctExisting) {
 		return bsonkit.Get(docs[r.N(len(docs))], "_id")
 	}
+	if r.P(8) {
+		// container- and binary-valued ids (sameValue / immutability paths)
+		return []interface{}{bson.D{}, bson.D{{Key: "k", Value: int32(r.N(2))}}, primitive.Binary{Subtype: 0, Data: []byte{byte(r.N(2))}},
+			bson.D{{Key: "k", Value: bson.A{int32(1)}}}}[r.N(4)]
+	}
 	return r.ID()
 }
 
@@ -276,8 +281,14 @@ func (g *apiGen) update(db, coll string) bson.D {
 		return bson.D{{Key: "$inc", Value: bson.D{{Key: k, Value: r.SmallNumber()}}}}
 	case n < 40:
 		return bson.D{{Key: "$unset", Value: bson.D{{Key: k, Value: ""}}}}
-	case n < 45:
+	case n < 43:
 		return bson.D{{Key: "$set", Value: bson.D{{Key: "_id", Value: g.id(db, coll, 50)}}}}
+	case n < 45:
+		// removing or moving the _id must be rejected whatever its value (an empty document serializes like Missing)
+		if r.P(50) {
+			return bson.D{{Key: "$unset", Value: bson.D{{Key: "_id", Value: ""}}}}
+		}
+		return bson.D{{Key: "$rename", Value: bson.D{{Key: "_id", Value: k}}}}
 	case n < 50:
 		return bson.D{{Key: "$set", Value: bson.D{{Key: "a.b", Value: g.value()}}}}
 	case n < 55:
